@@ -34,5 +34,8 @@ def classify(res):
     return "unclassified", panic
 
 
-def out_lines(stdout):
-    return stdout.split("\n")[:-1] if stdout.endswith("\n") else (stdout.split("\n") if stdout else [])
+def out_lines(stdout, cap=1500):
+    lines = stdout.split("\n")[:-1] if stdout.endswith("\n") else (stdout.split("\n") if stdout else [])
+    if len(lines) > cap:        # a runaway program: keep the head, mark the cut (no prescribed output is this long)
+        lines = lines[:cap] + [f"...[{len(lines) - cap} more lines]"]
+    return lines
